@@ -845,7 +845,28 @@ func funcRoles() []funcRole {
 			return found
 		}},
 		{"util.errorAs", func(p *Program) *ssa.Function {
-			return firstUnexportedCallee(p, "util.ErrorTypesMatch", false, func(f *ssa.Function) bool { return f.Signature.Results().Len() == 1 && f.Signature.Params().Len() == 2 })
+			// the unexported function or method of package util that tests reflect assignability
+			var found *ssa.Function
+			for _, f := range p.Funcs {
+				if f.Pkg == nil || f.Pkg.Pkg.Name() != "util" || f.Parent() != nil || (f.Object() != nil && f.Object().Exported()) {
+					continue
+				}
+				calls := false
+				for _, b := range f.Blocks {
+					for _, in := range b.Instrs {
+						if cc, ok := in.(ssa.CallInstruction); ok && cc.Common().IsInvoke() && cc.Common().Method.Name() == "AssignableTo" {
+							calls = true
+						}
+					}
+				}
+				if calls {
+					if found != nil {
+						return nil
+					}
+					found = f
+				}
+			}
+			return found
 		}},
 	}
 }
